@@ -51,7 +51,9 @@ static int cmd_can(char** tok, int nt)
     size_t plen = unhex(tok[10], pay_b, sizeof pay_b);
     uint8_t* arena = ext_place(place, off, arena_b, alen);
     c.hdr = arena + base;
+    ext_dest_hint(c.hdr + (!strcmp(c.kind, "full") ? 16 : 8));
     c.payload = ext_source(pay_b, plen);
+    ext_dest_hint(NULL);
     char status[64];
     ext_call(can_fn, &c, status, sizeof status, arena);
     ext_result(status, c.ret, 0, 0, arena, alen); putchar('\n');
